@@ -52,6 +52,10 @@ LINES = [
     "password apply",
     "",
     "\t",
+    # statements the secret stage removes as a whole, with work for the other stages in front of them
+    "peer 10.1.2.3 as 65001 cable shared-secret s3cr3t",
+    "seattle 2001:db8::12 key-string abcdef 12",
+    '{"seattle-cmts": "wpa-psk ascii 0 hunter22", "as": 65001, "ip": "10.9.8.7"}',
     # inner whitespace runs on lines that only some stages touch
     " ip  address\t10.1.2.3   255.255.255.0",
     "router   bgp\t65001",
